@@ -188,7 +188,10 @@ func VerifyBlindedSignature(blinded, original destination.Destination, alpha [32
 // the 32-byte signing public key.
 func extractEd25519SigningKey(dest destination.Destination) ([32]byte, error) {
 	var result [32]byte
-	if dest.KeyCertificate.SigningPublicKeyType() != key_certificate.KEYCERT_SIGN_ED25519 {
+	// Same key types as CreateBlindedDestination accepts: RedDSA (11) keys are Ed25519
+	// points as well, and a RedDSA destination this package blinded has to pass its own check.
+	sigType := dest.KeyCertificate.SigningPublicKeyType()
+	if sigType != key_certificate.KEYCERT_SIGN_ED25519 && sigType != key_certificate.KEYCERT_SIGN_REDDSA_ED25519 {
 		return result, oops.Errorf("destination does not use Ed25519")
 	}
 	key, err := dest.SigningPublicKey()
